@@ -4,7 +4,7 @@ import ast
 from engine import docterm as D
 from engine import facts
 from engine.astutil import src, call_name, dotted, Guards, compare_parts, names_in, enclosing_map, inside_try_body, handler_catches
-from engine.interp import (Const, Sym, SymStr, ListV, TupleV, ValueV, CtxV, DocV, TypeV, FuncV, NONE, Undecided, prov)
+from engine.interp import (Const, Sym, SymStr, ListV, TupleV, ValueV, CtxV, DocV, TypeV, FuncV, NONE, Undecided, PathLimit, prov)
 from engine.loader import AnalysisError
 from . import shape as S
 from .c08 import string_printer_paths, _short
@@ -164,6 +164,51 @@ def run(repo, rep):
                             ok = depth0 and txt == L + '...' + R and base != 'set'
                             rep.check(ok, 'C01.c', lab + ':literal', fseq.where, 'depth placeholder keeps the brackets',
                                       'a native %s with %d elements is printed as %r' % (base, nel, txt))
+    # the same printer on sequences longer than every size constant it compares against (and than a fixed small count), with elements
+    # of known kinds: every element once, in order - handed to the recursive print entry, or written as the repr of an element that is
+    # exactly an int (that text is the int literal; the repr of a float is not evaluable for inf / nan, and the repr of an instance
+    # of a subclass is whatever the subclass says)
+    counts, mined = S.scaled_counts(repo, fseq)
+    rep.note('sequence printer: size constants %s; element counts %s' % ({k: v[:1] for k, v in mined.items()} or 'none', counts))
+    for nel in counts:
+        for kind in S.ELEMENT_KINDS:
+            if kind is None and nel > S.ALWAYS_COUNT:
+                continue        # elements of unknown type fork on every type test: only at the small count
+            for base in ('list', 'set') if kind else ('list', 'tuple', 'set'):
+                elems = S.typed_elements(nel, kind)
+                v = ValueV('value', S.type_scenario(base, True), elems)
+                try:
+                    runs = S.run_printer(repo, it, fseq, v, trailing_comment=NONE)
+                except (Undecided, PathLimit) as e:
+                    n += 1
+                    rep.undecided('C01.a', '%s[%s,n=%d,%s]' % (fseq.name, base, nel, kind or 'any'), fseq.where, str(e))
+                    continue
+                for pr, t, ph in runs:
+                    rep.count(1)
+                    lab = '%s[%s,n=%d,%s]{%s}' % (fseq.name, base, nel, kind or 'any', _short(pr))
+                    if pr.raised is not None:
+                        n += 1
+                        rep.fail('C01.c', lab, fseq.where, 'printer raises %s on a native %s of %d elements' % (pr.raised.what, base, nel))
+                        continue
+                    if not isinstance(t, D.Seq):
+                        continue
+                    view = S.element_view(t.items)
+                    names = [nm for nm, how, i_ in view]
+                    shown = len(names)
+                    n += 1
+                    okorder = S.in_order(view, nel, pr)
+                    badlit = [(nm, D.show(i_)) for nm, how, i_ in view if how == 'literal' and not S.exactly_int(nm, kind, pr)]
+                    if not okorder:
+                        detail = 'elements of a %s of %d: %s ... (%d shown)' % (base, nel, names[:4], shown)
+                    elif badlit:
+                        detail = ('in a %s of %d elements (%s) the element %s is written as %s instead of being handed to the recursive print entry: '
+                                  '%s' % (base, nel, kind or 'of unknown type', badlit[0][0], badlit[0][1],
+                                          'the repr of a float is inf / nan for non-finite values, which does not evaluate' if kind == 'float' else
+                                          'its own printer is bypassed (the repr of an arbitrary element is not an expression for it)'))
+                    else:
+                        detail = ''
+                    rep.check(okorder and not badlit, 'C01.a', lab + ':elements-in-order', fseq.where,
+                              'every element once, in iteration order, printed by dispatch', detail, nontrivial=True)
     rep.floor('C01.a-c:sequences', n, 60)
 
     # builder: dangle => ',' right before the closing bracket in every layout
